@@ -592,6 +592,89 @@ class Table:
 def f():
     return [NodeType.lookup("buf").is_source, NodeType.lookup("input").is_source, NodeType.lookup("zz"), Table().mro()]
 """,
+    "abc-strategy-classes-with-super-init": """
+from abc import ABC, abstractmethod
+class Dual(ABC):
+    @abstractmethod
+    def encode(self, n):
+        ...
+    def label(self):
+        return "dual"
+class Controlled(Dual):
+    def __init__(self, controlling):
+        super().__init__()
+        self.controlling = controlling
+    def encode(self, n):
+        return (n, self.controlling, self.detect(n))
+    @abstractmethod
+    def detect(self, n):
+        ...
+    def label(self):
+        return "controlled:" + super().label()
+class AndDual(Controlled):
+    def __init__(self):
+        super().__init__("0")
+    def detect(self, n):
+        return n + "_is_0"
+    def label(self):
+        return "and:" + super().label()
+def f():
+    a = AndDual()
+    return [a.encode("p"), a.label(), isinstance(a, Dual), isinstance(a, Controlled)]
+""",
+    "except-clause-over-a-variable": """
+from contextlib import contextmanager
+@contextmanager
+def undo_on(exc_type, undo):
+    try:
+        yield
+    except exc_type:
+        undo()
+        raise
+def f():
+    log = []
+    for exc, which in ((ValueError, (ValueError, KeyError)), (KeyError, ValueError), (IndexError, (LookupError,))):
+        try:
+            with undo_on(which, lambda: log.append("undone")):
+                raise exc("x")
+        except Exception as e:
+            log.append(type(e).__name__)
+    return log
+""",
+    "augmented-assignment-is-in-place-for-mutables": """
+from collections import deque
+def touch(attrs, names, seen):
+    attrs |= {"type": "buf", "output": True}
+    names += ["x"]
+    seen -= {"a"}
+    seen ^= {"z"}
+def f():
+    a, n, s = {"type": "bb_input"}, ["n"], {"a", "b"}
+    alias = a
+    touch(a, n, s)
+    t = (1, 2)
+    u = t
+    t += (3,)
+    d = deque([1, 2, 3], maxlen=2)
+    d.appendleft(0)
+    return [alias, n, sorted(s), t, u, list(d), d.maxlen]
+""",
+    "list-grows-while-a-for-loop-walks-it": """
+def f():
+    tree = {"o": ["a", "b"], "a": ["c"], "b": [], "c": ["d", "e"], "d": [], "e": []}
+    heads = ["o"]
+    order = []
+    for node in heads:
+        order.append(node)
+        members = list(tree[node])
+        for m in members:
+            if len(tree[m]) == 1:
+                members.append(tree[m][0])
+            elif tree[m]:
+                heads.append(m)
+        order.append(tuple(members))
+    return order
+""",
 }
 
 
